@@ -102,4 +102,32 @@ Proof. exact EquivClient.connected_stable. Qed.
 Print Assumptions C13_code_connected_stable.
 
 
+
+(* the Titan client class (TitanClientProtocol), same model with the upload's request bytes and decode_body = true *)
+Theorem C13_code_titan_cstep_data_tie : forall request soc db dw s d,
+  connected s = true ->
+  gen_titan_data_received gen_titan_header_too_long (gen_titan_parse_header gen_titan_set_error) gen_titan_set_error s d
+  = cstep request soc db gen_MAX_RESPONSE_BODY_SIZE dw s (CData d).
+Proof. exact EquivClient.titan_cstep_data_tie. Qed.
+Print Assumptions C13_code_titan_cstep_data_tie.
+
+Theorem C13_code_titan_cstep_lost_tie : forall request soc cap dw url s exc,
+  (cfut s = Pending -> hdr s = true -> status s <> None) ->
+  gen_titan_connection_lost dw url s (option_map (app (lit "conn:")) exc) = cstep request soc true cap dw s (CLost exc).
+Proof. exact EquivClient.titan_cstep_lost_tie. Qed.
+Print Assumptions C13_code_titan_cstep_lost_tie.
+
+Theorem C13_code_titan_cstep_connected_tie : forall soc db cap dw url content b s,
+  encode (url ++ [13; 10]%N) = Some b ->
+  gen_titan_connection_made (gen_titan_send_request url content) soc s = cstep [b; content] soc db cap dw s CConnected.
+Proof. exact EquivClient.titan_cstep_connected_tie. Qed.
+Print Assumptions C13_code_titan_cstep_connected_tie.
+
+Theorem C13_code_titan_send_request_tie : forall soc db cap dw url content b s,
+  encode (url ++ [13; 10]%N) = Some b ->
+  gen_titan_send_request url content s = cstep [b; content] soc db cap dw s CSend.
+Proof. exact EquivClient.titan_send_request_tie. Qed.
+Print Assumptions C13_code_titan_send_request_tie.
+
+
 Close Scope N_scope.
